@@ -19,8 +19,13 @@ ALGOS = ['simple_bounds', 'simple_bounds_newton', 'scipy', 'TR-newton', 'LS-newt
 
 def make_config(rng, profile, tier):
     cfg = specs.gen_model_config(rng, k_max=4, fancy_names=False, allow_cliff=False, weight=True, bounds=True)
-    cfg['names'] = rng.sample(['asc', 'b_time', 'b_cost', 'beta', 'BETA', 'b', 'b1', 'b10', 'mu', 'a_b'], cfg['K'])
+    cfg['names'] = rng.sample(['asc', 'b_time', 'b_cost', 'beta', 'BETA', 'b', 'b1', 'b10', 'b2', 'coef_2', 'coef_10', 'mu',
+                               'a_b'], cfg['K'])
     cfg['N'] = max(cfg['N'], 5)
+    if rng.random() < 0.2:
+        # every starting value written as a Python integer
+        cfg['init'] = [float(rng.choice([0, 0, 1])) for _ in range(cfg['K'])]
+        cfg['int_init'] = True
     if not cfg['fixed'] and rng.random() < 0.5:
         cfg['fixed'] = [['fx0', rng.choice([1.0, -0.5, 0.25])]]
     # feasible starting values
@@ -67,8 +72,10 @@ def make_ops(rng, cfg, profile, tier):
             ops.append({'op': 'GET', 'a': []})
         elif r < 0.86:
             ops.append({'op': 'RANDOM_INIT', 'a': [rng.choice([1.5, 3.0, 0.75])]})
-        elif r < 0.87:
+        elif r < 0.865:
             ops.append({'op': 'SHARED_BETAS', 'a': [rng.randrange(4)]})
+        elif r < 0.87:
+            ops.append({'op': 'CATALOG_BETA', 'a': [rng.randrange(4)]})
         elif r < 0.93:
             ops.append({'op': 'FIX', 'a': [rng.randrange(64), round(rng.uniform(-1, 1), 2),
                                            rng.choice([None, None, 'prefix', 'suffix'])]})
@@ -569,6 +576,38 @@ class Session:
             sim(b1, v1, want1, 'first model again')
             ctx.probe('two models sharing a parameter object')
             ctx.log(kind, order)
+        elif kind == 'CATALOG_BETA':
+            # a catalog whose selected alternative is a parameter as such: values given by name reach it like any other
+            import biogeme.biogeme as bio
+            import biogeme.database as db
+            import biogeme.expressions as ex
+            from biogeme.catalog import Catalog
+            from biogeme.parameters import Parameters
+            mode = a[0]
+            cb = ex.Beta('cat_plain', 0.1, None, None, 0)
+            cs = ex.Beta('cat_scaled', 0.2, None, None, 0)
+            other = ex.Beta('cat_other', 0.3, None, None, 0)
+            cat = Catalog.from_dict('cat_of_betas', {'plain': cb, 'scaled': 2.0 * cs})
+            f = cat * ex.Variable('x0') + other
+            d_ = db.Database('catb', self.table.copy())
+            xs = [float(v) for v in self.table['x0'].to_list()]
+            new = {'cat_plain': 0.75, 'cat_other': -0.5}
+            if mode % 2:
+                p = Parameters()
+                p.set_value('save_iterations', False)
+                B = bio.BIOGEME(d_, {'p': f}, parameters=p)
+                B.change_init_values(new)
+                got = [float(v) for v in B.simulate(B.get_beta_values())['p'].to_list()]
+            else:
+                f.change_init_values(new)
+                got = [float(v) for v in f.get_value_c(database=d_, prepare_ids=True)]
+            for i_, (g_, x_) in enumerate(zip(got, xs)):
+                w_ = 0.75 * x_ - 0.5
+                if abs(g_ - w_) > 1e-12 * max(1.0, abs(w_)):
+                    ctx.fail('I03.store', f'catalog whose selected alternative is the parameter cat_plain: after '
+                                          f'change_init_values({new}) row {i_} evaluates to {g_!r}, with the named values it is {w_!r}')
+            ctx.probe('by-name write through a catalog whose selected alternative is a parameter')
+            ctx.log(kind, mode)
         elif kind == 'RANDOM_INIT':
             # random starting values: each parameter's value is drawn inside ITS OWN bounds (a missing bound is replaced
             # by +/- the given number); fixed parameters are untouched; then the stored values are written back by name
